@@ -797,7 +797,11 @@ inline Result
 assign_float_int_inexact(To& to, const From from, Rounding_Dir dir) {
   prepare_inexact<To_Policy>(dir);
   if (fpu_direct_rounding(dir)) {
+    // Keep the conversion between the reset and the inspection of the
+    // inexact flag: the compiler is otherwise free to move it.
+    PPL_CC_FLUSH(from);
     to = from;
+    PPL_CC_FLUSH(to);
   }
   else {
     fpu_rounding_control_word_type old
